@@ -376,9 +376,51 @@ def r8(ctx, facts):
     r.instance("repfactor-lookups", True, "%d lookups of the node's datacenter in datacenter_repfactors" % len(gets), b.span, nontrivial=False)
 
 
+def r9(ctx, facts):
+    r = ctx.rule("R9", "every (replica, shard) pair a replica set hands out pairs the node with ITS OWN shard: computed by with_computed_shard for that node, or read from the same tablet replica entry", floor=3)
+    from ..util import field_slice
+    NODE = "alloc::sync::Arc<scylla::cluster::node::Node>"
+    ELEM_OK = ("get", "deref", "index", "next", "iter", "as_ref", "get_unchecked", "first", "nth", "as_slice")
+    n = 0
+    for b in facts.bodies.values():
+        if b.crate != "scylla" or "::promoted[" in b.path or not b.path.startswith("scylla::routing::locator::") \
+                or b.path.startswith(("scylla::routing::locator::tablets::", "scylla::routing::locator::test", "scylla::routing::locator::precomputed_replicas::",
+                                      "scylla::routing::locator::replication_info::", "scylla::routing::locator::token_ring::")):
+            continue
+        for bb in sorted(b.live_blocks):
+            for st in b.stmts(bb):
+                if not (st[0] == "A" and st[2][0] == "agg" and st[2][1][0] == "tuple" and len(st[2][2]) == 2 and not st[1][1]):
+                    continue
+                ty = b.local_ty(st[1][0])
+                if not (ty.startswith("(&" + NODE) and ty.rstrip(")").endswith("u32")):
+                    continue
+                n += 1
+                key = fn_short(b.path)
+                node_op, shard_op = st[2][2]
+                s_seen, s_calls, s_bins = field_slice(b, shard_op)
+                n_seen, n_calls, _ = field_slice(b, node_op)
+                names = [(c.decl or c.name or "").split("::")[-1] for c in s_calls]
+                if b.path == "scylla::routing::locator::with_computed_shard":
+                    ok = any((c.name or "").endswith("Node::sharder") for c in s_calls) and not s_bins
+                    # the sharder consulted is the paired node's
+                    shr = [c for c in s_calls if (c.name or "").endswith("Node::sharder")]
+                    if shr:
+                        a_seen, _, _ = field_slice(b, shr[0].args[0])
+                        ok = ok and bool({l for l, _ in a_seen} & {l for l, _ in n_seen})
+                    r.instance("pair:" + key, ok, "with_computed_shard must compute the shard with the sharder of the node it returns", b.stmt_span(st))
+                    continue
+                same_elem = bool({l for l, _ in s_seen if "u32)" in b.local_ty(l) or "u32)]" in b.local_ty(l)} & {l for l, _ in n_seen})
+                ok = all(nm in ELEM_OK for nm in names) and not s_bins and same_elem
+                r.instance("pair:" + key, ok,
+                           "a (node, shard) pair is assembled from a shard that is not this node's own (derives from %s): a shard remembered from another replica, or a default, "
+                           "sends the request to the right node on the wrong shard" % (sorted(set(names)) or "a local / field"), b.stmt_span(st))
+    if n < 2:
+        raise AnchorLost("expected the (node, shard) pairs of with_computed_shard and of the tablet arms in routing::locator, found %d" % n)
+
+
 def check(ctx):
     facts = inline_view(ctx.facts("default"))
-    for fn in (r1, r2, r3, r4, r5, r6, r7, r8):
+    for fn in (r1, r2, r3, r4, r5, r6, r7, r8, r9):
         try:
             fn(ctx, facts)
         except AnchorLost as ex:
